@@ -634,7 +634,7 @@ func (e *EnumType) SetNext(name string) error {
 		// The first member starts at 0.
 		return e.Set(name, 0)
 	}
-	if e.last == MaxEnum {
+	if e.last == e.max {
 		return fmt.Errorf("enum %q must specify a value since previous enum is the maximum value allowed", name)
 	}
 	return e.Set(name, e.last+1)
